@@ -266,6 +266,13 @@ Section RunApi.
     | SList [SAtom "dropIndexKey"; s; db; co; k] =>
         do s' <- z_of s; do h <- handle_of db co; do k' <- doc_of_sexp k;
         Some (drop_by_key_call ds s' h k')
+    (* thin wrappers of the driver API, as the calls they delegate to *)
+    | SList [SAtom "estCount"; s; db; co] =>            (* EstimatedDocumentCount = CountDocuments({}) *)
+        do s' <- z_of s; do h <- handle_of db co; Some (CCount s' h [] 0 0)
+    | SList [SAtom "updateById"; s; db; co; i; u; up; afs] =>   (* UpdateByID = UpdateOne({_id: id}, …) *)
+        do s' <- z_of s; do h <- handle_of db co; do i' <- value_of_sexp i;
+        do u' <- doc_of_sexp u; do up' <- bool_of_sexp up; do afs' <- docs_of afs;
+        Some (CUpdate s' h false [("_id", i')] u' up' afs')
     | _ => call_of x
     end.
 
